@@ -78,8 +78,9 @@ def validate(prop, repo, seed=0, jobs=None):
         return {"selfvalidation_summary": "no variants registered for %s" % prop}
     random.Random(seed).shuffle(vs)
     jobs = jobs or min(16, max(1, len(vs)))
-    with multiprocessing.Pool(jobs) as pool:
-        results = pool.map(run_variant, [(prop, repo, v) for v in vs])
+    # workers are recycled after a few variants: each run builds a whole program model
+    with multiprocessing.Pool(jobs, maxtasksperchild=6) as pool:
+        results = pool.map(run_variant, [(prop, repo, v) for v in vs], chunksize=1)
     by_id = {v["id"]: v for v in vs}
     bad = []
     rows = []
@@ -131,8 +132,8 @@ def main(argv=None):
             if args.prop and prop != args.prop.upper():
                 continue
             todo.append((prop, args.repo, v))
-    with multiprocessing.Pool(min(16, max(1, len(todo)))) as pool:
-        results = pool.map(run_variant, todo)
+    with multiprocessing.Pool(min(16, max(1, len(todo))), maxtasksperchild=6) as pool:
+        results = pool.map(run_variant, todo, chunksize=1)
     bad = 0
     for (prop, _, v), (vid, status, msg, found) in zip(todo, results):
         want = "fired" if v["kind"] == "seeded" else "silent"
